@@ -10,6 +10,8 @@ import common
 import pyir_circuit
 import pyir_classify
 import pyir_failure
+import pyir_loop
+import pyir_sleep
 import pyir_translate
 
 THEOREMS = ["consume_ir_correct", "remaining_ir_correct", "init_ir_correct", "ir_run_correct", "source_meets_spec"]
@@ -137,14 +139,78 @@ def failure_tie(chk):
                                "_select_strategy / _build_backoff_context (their meaning is the corresponding Runner.v operation)"]}
 
 
+SLEEP_THEOREMS = ["backoff_ir_correct"]
+
+
+def sleep_tie(chk):
+    """retry_helpers.py's sleep protocol (_sync/_async_sleep_action, _handle_sleep_decision, _finalize_attempt, the glue and the
+    guarded hook callers) -> PyIRS token lists + obligation (coq/templates/SleepIRProofs.v.in): their composition is Runner.backoff."""
+    out = os.path.join(chk.workdir, "SleepIR.v")
+    tpl = os.path.join(common.COQ, "templates", "SleepIRProofs.v.in")
+    try:
+        prog = pyir_sleep.generate(os.path.join(common.REPO, "src"), out, tpl)
+    except pyir_translate.TranslationError as e:
+        return {"ok": False, "stage": "translate", "detail": f"the sleep protocol in retry_helpers.py is outside the translated fragment: {e}"}
+    except (OSError, SyntaxError) as e:
+        return {"ok": False, "stage": "translate", "detail": f"redress/policy/retry_helpers.py could not be read: {e}"}
+    rc, stdout, stderr, wall = common.run(["coqc", "-Q", common.THEORIES, "Redress", "-w", "none", out], 600, cwd=chk.workdir)
+    if rc != 0:
+        return {"ok": False, "stage": "proof", "theorem": "backoff_ir_correct",
+                "detail": f"the translated sleep protocol no longer proves equal to Runner.backoff: {stderr.strip()[-600:]}", "ir": prog}
+    return {"ok": True, "stage": "done", "theorems": SLEEP_THEOREMS, "closed_under_global_context": stdout.count("Closed under the global context"),
+            "seconds": round(wall, 1),
+            "functions": ["_sync_sleep_action", "_async_sleep_action (= sync up to await)", "_handle_sleep_decision", "_finalize_attempt",
+                          "_sync_failure_outcome / _async_failure_outcome (shape)", "_call_before_sleep(_async) / _call_async_sleeper (shape)"],
+            "not_translated": ["the four runner loops (sync_core.py / async_core.py)"]}
+
+
+LOOP_THEOREMS = ["call_iter_ir_correct", "execute_iter_ir_correct", "call_loop_ir_correct", "execute_loop_ir_correct"]
+
+
+def loop_tie(chk):
+    """the bodies of the four retry loops (runner/sync_core.py, runner/async_core.py = sync up to await) -> PyIRL token lists +
+    obligations (coq/templates/LoopIRProofs.v.in): one execution of the translated body is Runner.iter followed by Runner.deliver,
+    hence the loop over range(1, max_attempts + 1) with its fall-through is Runner.run."""
+    out = os.path.join(chk.workdir, "LoopIR.v")
+    tpl = os.path.join(common.COQ, "templates", "LoopIRProofs.v.in")
+    try:
+        prog = pyir_loop.generate(os.path.join(common.REPO, "src"), out, tpl)
+    except pyir_translate.TranslationError as e:
+        return {"ok": False, "stage": "translate", "detail": f"the retry loops in policy/runner are outside the translated fragment: {e}"}
+    except (OSError, SyntaxError) as e:
+        return {"ok": False, "stage": "translate", "detail": f"redress/policy/runner could not be read: {e}"}
+    rc, stdout, stderr, wall = common.run(["coqc", "-Q", common.THEORIES, "Redress", "-w", "none", out], 600, cwd=chk.workdir)
+    if rc != 0:
+        where = "LoopIR.v"
+        m = re.search(r"line (\d+)", stderr)
+        if m:
+            lines = open(out).read().split("\n")
+            for k in range(int(m.group(1)) - 1, -1, -1):
+                mm = re.match(r"\s*(Lemma|Theorem)\s+(\w+)", lines[k])
+                if mm:
+                    where = mm.group(2)
+                    break
+        return {"ok": False, "stage": "proof", "theorem": where,
+                "detail": f"the translated loop body no longer proves equal to Runner.iter + Runner.deliver ({where}): {stderr.strip()[-600:]}",
+                "ir": prog}
+    return {"ok": True, "stage": "done", "theorems": LOOP_THEOREMS, "closed_under_global_context": stdout.count("Closed under the global context"),
+            "seconds": round(wall, 1),
+            "functions": ["_run_sync_call", "_run_sync_execute", "_run_async_call / _run_async_execute (= sync up to await)",
+                          "loop header, state construction and fall-through (shape)"],
+            "pinned_helpers": sorted(pyir_loop.PINS),
+            "not_translated": ["attempt hooks (no-ops in the model), _call_with_timeout / asyncio.wait_for (section 15 of DESIGN.md), "
+                               "the helpers of runner/logic.py and retry_helpers.py listed under pinned_helpers: their statements are "
+                               "pinned by digest and their meaning is the corresponding Runner.v operation"]}
+
+
 def report(chk, tie, name, searched):
     """shared bookkeeping: coverage, obligations, and the violation when the tie is broken and nothing else was found"""
     chk.coverage["source_translation"] = {k: v for k, v in tie.items() if k != "ir"}
-    n = len(tie.get("theorems") or {"circuit": CIRCUIT_THEOREMS, "classify": CLASSIFY_THEOREMS, "failure": FAILURE_THEOREMS}.get(name, THEOREMS))
+    n = len(tie.get("theorems") or {"circuit": CIRCUIT_THEOREMS, "classify": CLASSIFY_THEOREMS, "failure": FAILURE_THEOREMS, "sleep": SLEEP_THEOREMS, "loop": LOOP_THEOREMS}.get(name, THEOREMS))
     chk.coverage["obligations"] = chk.coverage.get("obligations", 0) + n
     if tie["ok"]:
         chk.coverage["discharged"] = chk.coverage.get("discharged", 0) + n
-        mod = {"circuit": "CircuitIR", "classify": "ClassifyIR", "failure": "FailureIR"}.get(name, "BudgetIR")
+        mod = {"circuit": "CircuitIR", "classify": "ClassifyIR", "failure": "FailureIR", "sleep": "SleepIR", "loop": "LoopIR"}.get(name, "BudgetIR")
         chk.coverage["theorems"] = list(chk.coverage.get("theorems", [])) + [f"{mod}.{t}" for t in tie["theorems"]]
     elif not chk.violations:
         chk.violation({"kind": "source-translation", "what": tie["detail"], "stage": tie["stage"],
